@@ -22,11 +22,14 @@ type Rec = {
   a: bool
   b: int
 }
+type Ev =
+  | Tick(int, void)
+  | Halt
 """
 
 # ---------------------------------------------------------------- types
 # 'bool' 'int' 'float' 'string' 'void' ('tuple',[t]) ('enum','Shape') ('struct','Rec') ('option',t)
-ENUMS = {"Shape": [("Dot", []), ("Circle", ["int"]), ("Rect", ["bool", "bool"])]}
+ENUMS = {"Shape": [("Dot", []), ("Circle", ["int"]), ("Rect", ["bool", "bool"])], "Ev": [("Tick", ["int", "void"]), ("Halt", [])]}
 STRUCTS = {"Rec": [("a", "bool"), ("b", "int")]}
 
 
@@ -215,9 +218,11 @@ class PatGen:
         if t == "bool":
             ps += [("lit", "true", True), ("lit", "false", False)]
         elif t == "int":
-            ps += [("lit", "0", 0), ("lit", "7", 7)]
+            # a nested or-pattern (alternatives inside a component, e.g. `(0 | 7, 0 | 7)`)
+            ps += [("lit", "0", 0), ("lit", "7", 7), ("or", ("lit", "0", 0), ("lit", "7", 7))]
         elif t == "float":
-            ps += [("lit", "1.0", 1.0), ("lit", "1.00", 1.0), ("lit", "2.5", 2.5)]
+            # two spellings of one value, and two adjacent doubles (0.1 and the next double after it): literals are compared by value, exactly
+            ps += [("lit", "1.0", 1.0), ("lit", "1.00", 1.0), ("lit", "2.5", 2.5), ("lit", "0.1", 0.1), ("lit", "0.10000000000000002", 0.10000000000000002)]
         elif t == "string":
             ps += [("lit", '"a"', "a"), ("lit", '""', "")]
         elif t == "void":
@@ -264,7 +269,7 @@ def name_vars(p, counter):
 TYPES = [
     "bool", ("tuple", ["bool", "bool"]), "int", ("tuple", ["int", "bool"]), ("enum", "Shape"), ("option", "bool"),
     ("struct", "Rec"), "float", "string", ("tuple", [("option", "bool"), "bool"]), ("tuple", [("enum", "Shape"), "bool"]),
-    ("option", ("tuple", ["bool", "int"])), "void", ("tuple", ["bool", "void"]),
+    ("option", ("tuple", ["bool", "int"])), "void", ("tuple", ["bool", "void"]), ("tuple", ["int", "int"]), ("tuple", ["int", "bool", "void"]), ("enum", "Ev"),
 ]
 
 
@@ -284,6 +289,19 @@ def arm_lists(t, rng, count, max_arms=3, with_vars=True, exhaustive_limit=None):
         for n in (1, 2):
             for combo in itertools.product(pool, repeat=n):
                 lists.append(list(combo))
+    # every pattern that contains a nested or-pattern appears at least once as a first arm (followed by a wildcard)
+    def has_nested_or(p, top=True):
+        if p[0] == "or":
+            return (not top) or has_nested_or(p[1], False) or has_nested_or(p[2], False)
+        if p[0] == "tuple":
+            return any(has_nested_or(q, False) for q in p[1])
+        if p[0] in ("variant", "struct"):
+            return any(has_nested_or(q, False) for q in p[2])
+        return False
+    nested = [p for p in base if has_nested_or(p)]
+    for p in nested[:24]:
+        lists.append([p, ("wild",)])
+    count += len(nested[:24])
     seen = set()
     tries = 0
     while len(lists) < count and tries < count * 20:
@@ -336,7 +354,7 @@ def dummy_value(t):
     if t[0] == "struct":
         return "%s(%s)" % (t[1], ", ".join(dummy_value(ft) for _, ft in STRUCTS[t[1]]))
     if t[0] == "enum":
-        return "%s.Dot" % t[1]
+        return "%s.%s" % (t[1], [vn for vn, fts in ENUMS[t[1]] if not fts][0])
     if t[0] == "option":
         return "option.none"
 
@@ -384,6 +402,9 @@ def parse_witness(text, t):
         tk = nxt()
         if tk == "_":
             return ("wild",)
+        if tk == "(" and peek() == ")":
+            nxt()
+            return ("lit", "nil", None)  # `()` is how the checker prints the void value
         if tk == "(":
             items = []
             tys = t[1] if t[0] == "tuple" else [ft for _, ft in STRUCTS[t[1]]] if t[0] == "struct" else None
